@@ -56,6 +56,7 @@ func runC13(rc *RC) {
 	}
 	ids := universe()
 	name := worldKindNames[kind]
+	rc.Phase("C13/" + name)
 	rc.Notef("world: %s; base city of %d features", name, len(base))
 	steps := rc.Range(3, 24)
 	mix := opMix{invalidPct: 35, richTypes: true}
@@ -109,8 +110,8 @@ func runC13(rc *RC) {
 			}
 		}
 	}
+	rc.SetNontrivial(rejections > 0)
 	if rejections > 0 {
-		rc.Rec.Nontrivial = true
 		rc.Probe("rejection-fired")
 	}
 	if rc.Failed() {
@@ -118,7 +119,7 @@ func runC13(rc *RC) {
 	}
 	// latent corruption: the world that saw the rejected attempts must equal
 	// the twin that never saw them
-	a, b := Observe(w, ids, full), Observe(twin, ids, full)
+	a, b := Observe(w, ids, full).Without("tokens"), Observe(twin, ids, full).Without("tokens")
 	if d := a.Diff(b, 1); len(d) > 0 {
 		rc.Fail("C13/"+name+"/differs-from-twin:"+section(d[0]), "after the history, the world that was offered (and refused) %d invalid changes differs from a twin that only saw the accepted ones:\n%s", rejections, a.DiffString(b, "world", "twin "))
 	}
@@ -196,7 +197,7 @@ func c13Merged(rc *RC, g *cityGen, w, twin ingest.MutableWorld, ids []b6.Feature
 		}
 		g.commit(o)
 	}
-	a, b := Observe(w, ids, full), Observe(twin, ids, full)
+	a, b := Observe(w, ids, full).Without("tokens"), Observe(twin, ids, full).Without("tokens")
 	if d := a.Diff(b, 1); len(d) > 0 {
 		rc.Fail("C13/"+name+"/merged-differs-from-sequential:"+section(d[0]), "MergedChange{%s } succeeded but the world differs from a twin that applied the parts one by one:\n%s", desc, a.DiffString(b, "merged    ", "sequential"))
 	}
